@@ -215,6 +215,17 @@ COMB = [
     ('Any()', lambda x, y: FL.Any(), lambda x, y: False),
     ('All()', lambda x, y: FL.All(), lambda x, y: True),
     ('(x,(y,))', lambda x, y: (x, (y,)), lambda x, y: x or y),
+    ('All((x,y),Not(x))', lambda x, y: FL.All((x, y), FL.Not(x)),
+     lambda x, y: (x or y) and not x),
+    ('All([x,y],y)', lambda x, y: FL.All([x, y], y), lambda x, y: (x or y) and y),
+    ('Any((x,y),All(x,y))', lambda x, y: FL.Any((x, y), FL.All(x, y)),
+     lambda x, y: x or y),
+    ('Not((x,y))', lambda x, y: FL.Not((x, y)), lambda x, y: not (x or y)),
+    ('Not([x,[y]])', lambda x, y: FL.Not([x, [y]]), lambda x, y: not (x or y)),
+    ('All(Any(x,y),(y,))', lambda x, y: FL.All(FL.Any(x, y), (y,)),
+     lambda x, y: (x or y) and y),
+    ('Any(All((x,y)),Not(y))', lambda x, y: FL.Any(FL.All((x, y)), FL.Not(y)),
+     lambda x, y: (x or y) or not y),
 ]
 
 
@@ -333,6 +344,12 @@ def obligations(tier):
          split=('rot', 'nf', 'f0'), timeout=240, funcs=F,
          bounds='variables dict with every pool name as a collection (key order '
                 'rotated), <=%d filters of any form' % (2 if quick else 3)),
+      Ob('linen_grouping3', grouping,
+         dict(rot=I(0, 0), f0=I(0, 6), f1=I(0, 6), f2=I(0, 6), a0=nm, a1=nm,
+              a2=nm, nf=I(3, 3)),
+         split=('f0', 'f1'), timeout=240, funcs=F,
+         bounds='3 filters from the first 7 forms (a later non-adjacent filter '
+                'may match what an earlier one took)'),
       Ob('linen_emptiness_free_string', emptiness_free,
          dict(f1=fm, a1=nm, b1=nm, col=Str(24)), split=('f1',),
          timeout=20 if tier == 'quick' else 90, hunt=True, funcs=F,
